@@ -1,8 +1,9 @@
-from checks import treecheck, locate
+from checks import treecheck, locate, common
 import vlib
 
 
 def run(tier, seed):
     def extra(rep, sdir):
+        common.proof_part_more(rep, "Properties_C06f", extra_trusted=["Flocq 4 (user-contrib) and Coq's classical real numbers: ClassicalDedekindReals.sig_not_dec, sig_forall_dec, FunctionalExtensionality.functional_extensionality_dep, Classical_Prop.classic"])
         locate.run_float_part(rep, tier, seed, sdir)
     return treecheck.run_tree_property("C06", "Properties_C06", tier, seed, set("placement,data".split(",")), extra=extra)
